@@ -36,6 +36,19 @@ def seeded_entries():
     return out
 
 
+def refactor_entries():
+    """Behaviour-preserving refactorings written by independent sub-agents (selftest/refactors/<prop>/r*.diff): every check
+    must stay silent on each of them."""
+    import glob
+    out = []
+    base = os.path.join(VERIF, 'selftest', 'refactors')
+    for p in sorted(glob.glob(os.path.join(base, '*', '*.diff'))):
+        prop = os.path.basename(os.path.dirname(p))
+        out.append(dict(id='refactor/%s/%s' % (prop, os.path.basename(p)[:-5]), property=prop, patch=p, expect='silent',
+                        also=['C%02d' % i for i in range(1, 21) if 'C%02d' % i != prop], all_silent=True))
+    return out
+
+
 def _apply(entry, root):
     if 'patch' in entry:
         r = subprocess.run(['patch', '-p1', '-s', '-d', root, '-i', entry['patch']], capture_output=True, text=True)
@@ -83,6 +96,11 @@ def run_entry(entry, tier='quick'):
                 ok = any(x.startswith(entry['rule']) for x in main['rules'])
         else:
             ok = main['rc'] == 0
+            if entry.get('all_silent'):
+                ok = all(v['rc'] == 0 for v in results.values())
+                main = dict(main, rules=sorted(set(r for v in results.values() for r in v['rules'])),
+                            rc=max(v['rc'] for v in results.values()),
+                            out=' | '.join('%s rc=%d' % (k, v['rc']) for k, v in results.items() if v['rc']))
         return dict(id=entry['id'], property=entry['property'], expect=entry['expect'], status='ok' if ok else 'MISS',
                     rc=main['rc'], rules=main['rules'], detail=main['out'],
                     also={k: v['rc'] for k, v in results.items() if k != entry['property']})
@@ -96,7 +114,7 @@ def run_all(entries, jobs=16, tier='quick'):
 
 
 def audit_property(prop, jobs=16):
-    entries = [e for e in load_corpus() + seeded_entries() if e['property'] == prop]
+    entries = [e for e in load_corpus() + seeded_entries() + refactor_entries() if e['property'] == prop]
     res = run_all(entries, jobs)
     mut = [r for r in res if r.get('expect') == 'violation']
     ref = [r for r in res if r.get('expect') == 'silent']
@@ -113,7 +131,7 @@ def audit_property(prop, jobs=16):
 
 
 def selftest(props=None, jobs=16):
-    entries = load_corpus() + seeded_entries()
+    entries = load_corpus() + seeded_entries() + refactor_entries()
     if props:
         entries = [e for e in entries if e['property'] in props or e['id'] in props]
     res = run_all(entries, jobs)
